@@ -1059,7 +1059,7 @@ func TestVerifC03HashHistories(t *testing.T) {
 		"edge writes aimed at an existing edge with probability .85. exhaustive=true is reported only when the sampled part is disabled (VERIF_C03_SAMPLES=0).",
 		len(al), len(exIdx), tier, maxLen, nominal, verifC03SumInts(levelRuns), levelRuns, nSample, sampleLens, seed)
 
-	var classes []*verifC03Class
+	classes := []*verifC03Class{}
 	for _, c := range total.Classes {
 		classes = append(classes, c)
 	}
@@ -1069,7 +1069,7 @@ func TestVerifC03HashHistories(t *testing.T) {
 		}
 		return classes[i].Class < classes[j].Class
 	})
-	var samples []string
+	samples := []string{}
 	for i := 0; i < 5; i++ {
 		if s, ok := total.Samples[i]; ok {
 			samples = append(samples, s)
@@ -1108,7 +1108,7 @@ func TestVerifC03HashHistories(t *testing.T) {
 		"violations":        len(total.Violating),
 		"violation_classes": classes,
 		"contracts":         verifC03Contracts,
-		"harness_errors":    total.Errs,
+		"harness_errors":    append([]string{}, total.Errs...),
 		"processes":         procs,
 		"seconds":           time.Since(start).Seconds(),
 	}
